@@ -25,6 +25,8 @@ Inductive case :=
        (o_status : result unit)                      (* observed: the query's nil / error class / panic *)
        (o_dest : list dst)                           (* observed: destination, one entry per element *)
        (o_tx : option (option err * list call * bool * nat))
+| CRowErr (q : case)                                 (* q = a single-row COrm query whose result set fails on its
+                                                        FIRST rows.Next() with the driver's error *)
 | CPair (first second : case)
 | CStream (ops : list (meth * bool))                 (* one breaker-guarded conn: queries that hit an EMPTY result,
                                                         (method, destination is a struct / an int64), in order *)
@@ -90,6 +92,30 @@ Definition model_ok1 (c : case) : bool :=
       end
   | CPair _ _ => false
   | CStream _ _ _ => false
+  | CRowErr _ => false
+  end.
+
+(* a single-row query on a result set failing at its first Next: the driver's error, destination untouched;
+   inside Transact the body returns that error: one Rollback, the error itself comes back *)
+Definition rowerr_model_ok (c : case) : bool :=
+  match c with
+  | COrm via m sh cols rows o_status o_dest o_tx =>
+      negb (rows_mode m) &&
+      match sh with
+      | DElem e =>
+          let (d, st) := unmarshal_row_no_next (Some ERowDriver) (init_elem e) in
+          status_eqb st o_status && list_eqb dst_eqb [d] o_dest &&
+          match o_tx, in_tx via with
+          | None, false => true
+          | Some (r, cs, esc, runs), true =>
+              let (r', cs') := transact_ctx default_switches true no_faults (body_of_query st) in
+              option_eqb err_eqb r' r && list_eqb call_eqb cs' cs && negb esc &&
+              Nat.eqb runs (transact_ctx_runs true no_faults)
+          | _, _ => false
+          end
+      | _ => false
+      end
+  | _ => false
   end.
 
 (* the two destinations of a stream: struct{A int64 `db:"a"`; B string `db:"b"`} and int64 *)
@@ -117,6 +143,7 @@ Fixpoint stream_model (s : brk_state) (ops : list (meth * bool)) (obs : list (re
 (* the model keeps no state between queries: each query of a sequence is predicted on its own *)
 Definition model_ok (c : case) : bool :=
   match c with
+  | CRowErr q => rowerr_model_ok q
   | CPair a b => model_ok1 a && model_ok1 b
   | CStream ops o_st final =>
       match stream_model brk_fresh ops o_st with
@@ -216,12 +243,28 @@ Definition spec_ok1 (c : case) : bool :=
       end
   | CPair _ _ => false
   | CStream _ _ _ => false
+  | CRowErr _ => false
+  end.
+
+(* a failing result set is reported as the driver's error - never as ErrNotFound, never as nil - on every
+   entry point; inside Transact the transaction is rolled back and the error reaches the caller *)
+Definition rowerr_spec_ok (c : case) : bool :=
+  match c with
+  | COrm via m sh cols rows o_status o_dest o_tx =>
+      negb (rows_mode m) && status_eqb o_status (Err ERowDriver) &&
+      match o_tx with
+      | None => negb (in_tx via)
+      | Some (r, cs, esc, runs) =>
+          in_tx via && tx_allowed no_faults (body_of_query o_status) r cs (if esc then Some 0 else None) runs
+      end
+  | _ => false
   end.
 
 (* the mapping is per destination TYPE: every query of a sequence satisfies the clauses for ITS OWN shape,
    whatever was queried before (into whatever type, of whatever name) *)
 Definition spec_ok (c : case) : bool :=
   match c with
+  | CRowErr q => rowerr_spec_ok q
   | CPair a b => spec_ok1 a && spec_ok1 b
   | CStream ops o_st final =>
       (* every single-row query on an empty result reports ErrNotFound - the 300th like the first, never
